@@ -687,6 +687,16 @@ func c14FailureSide(rep *base.Report, w *runner.Workspace, pairs []*wirePair) {
 				os.WriteFile(filepath.Join(other, "wire.go"), []byte("package "+p.W.PkgName+"\n\nimport \"github.com/google/wire\"\n\ntype DupB struct{}\n\nfunc NewDupB() *DupB { return &DupB{} }\n\nvar "+name+" = wire.NewSet(NewDupB)\n"), 0o644)
 				return []string{"migrate", ".", "./dup"}
 			}},
+			{"duplicate-set-name-same-file-name", func(dir string) []string {
+				// as above, and both declaring files carry the same base name
+				// (every package calls its wire file wire.go)
+				other := filepath.Join(dir, "dup")
+				os.MkdirAll(other, 0o755)
+				name := "DupNamedSet"
+				os.WriteFile(filepath.Join(dir, "wire_dup.go"), []byte("package "+p.W.PkgName+"\n\nimport \"github.com/google/wire\"\n\ntype DupA struct{}\n\nfunc NewDupA() *DupA { return &DupA{} }\n\nvar "+name+" = wire.NewSet(NewDupA)\n"), 0o644)
+				os.WriteFile(filepath.Join(other, "wire_dup.go"), []byte("package "+p.W.PkgName+"\n\nimport \"github.com/google/wire\"\n\ntype DupB struct{}\n\nfunc NewDupB() *DupB { return &DupB{} }\n\nvar "+name+" = wire.NewSet(NewDupB)\n"), 0o644)
+				return []string{"migrate", ".", "./dup"}
+			}},
 		}
 		for pi, pl := range plants {
 			for _, prior := range []string{"absent", "existing"} {
